@@ -142,7 +142,7 @@ def run(chk):
                 'offset, replayed in ascending and descending lookup order; corpus documents are validated by TLC (DocsTrace). '
                 'A case is a document or a string.')
     for label, pools in [('docs', {'Budget': 3 if quick else 4}),
-                         ('lines', {'Budget': 4 if quick else 5, 'TextPool': ['a', '\n', 'b c\nx', ' ', 'aa a'], 'ComPool': ['a'], 'MathKinds': ['$'],
+                         ('lines', {'Budget': 4, 'TextPool': ['a', '\n', 'b c\nx', ' ', 'aa a'], 'ComPool': ['a'], 'MathKinds': ['$'],
                                     'MEnvNames': [], 'VerbNames': ['verbatim'], 'VerbBodies': ['a\nxx a'], 'Leaves': [], 'ListNames': [], 'MaxSib': 3})]:
         recs, p = D.generate(chk, label, pools, [i for i in INV if i != 'C19_TokPosG'])
         c01.replay_docs(chk, recs, p['UserSkipG'], check_doc, 'positions, line/column and regex offsets')
